@@ -554,10 +554,18 @@ class Runner:
         if asan:
             env["ASAN_OPTIONS"] = "detect_leaks=1:abort_on_error=0:exitcode=99"
         try:
-            p = subprocess.run([exe], stdin=subprocess.DEVNULL, stdout=subprocess.PIPE, stderr=subprocess.PIPE, env=env, timeout=timeout, pass_fds=pass_fds)
-            rc, out, err, to = p.returncode, p.stdout, p.stderr, False
-        except subprocess.TimeoutExpired as e:
-            rc, out, err, to = -1, e.stdout or b"", e.stderr or b"", True
+            rc = None
+            # a time-out is only believed when it repeats with six times the budget (the machine may be busy)
+            for attempt, tmo in enumerate((timeout, timeout * 6)):
+                if attempt and ledger:
+                    os.ftruncate(fd, 0)
+                    os.lseek(fd, 0, os.SEEK_SET)
+                try:
+                    p = subprocess.run([exe], stdin=subprocess.DEVNULL, stdout=subprocess.PIPE, stderr=subprocess.PIPE, env=env, timeout=tmo, pass_fds=pass_fds)
+                    rc, out, err, to = p.returncode, p.stdout, p.stderr, False
+                    break
+                except subprocess.TimeoutExpired as e:
+                    rc, out, err, to = -1, e.stdout or b"", e.stderr or b"", True
         finally:
             if ledger:
                 os.close(fd)
